@@ -21,7 +21,7 @@ L3_ASSUME = L1_ASSUME + [
 ]
 GEN_MAIN = {"name": "l3main", "kind": "main", "n": {"quick": 300, "thorough": 300}}
 GEN_MAGIC = {"name": "l3magic", "kind": "magic", "n": {"quick": 200, "thorough": 200}}
-GEN_SHAPES = {"name": "l3shapes", "kind": "shapes", "n": {"quick": 150, "thorough": 2048}}
+GEN_SHAPES = {"name": "l3shapes", "kind": "shapes", "n": {"quick": 200, "thorough": 2048}}
 GEN_SUGG = {"name": "l3sugg", "kind": "sugg", "n": {"quick": 100, "thorough": 100}}
 GEN_SUGG_OFF = {"name": "l3sugg_off", "kind": "sugg", "n": {"quick": 100, "thorough": 100}, "no_default_features": True}
 
@@ -164,7 +164,8 @@ CHECKS = {
     "C17": {
         "packages": ["vchecks", "vgen"],
         "steps": [l3("c17", "suggestions-on", 40000, 6400000, gen=GEN_SUGG),
-                  l3("c17", "suggestions-off", 20000, 800000, gen=GEN_SUGG_OFF, extra={"feature": "off"})],
+                  l3("c17", "suggestions-off", 20000, 800000, gen=GEN_SUGG_OFF, extra={"feature": "off"}),
+                  vc("c17a", "api", 100000, 4000000)],
         "assumptions": L3_ASSUME + ["strsim::jaro_winkler is called directly as trusted third-party code; ties between equally similar candidates are accepted either way"],
     },
     "C05": {
